@@ -498,6 +498,55 @@ func TestC19RoundTrip(t *testing.T) {
 			roundTrip(run, r, kind, scratch, []string(nil), []string{"stale"}, "nil slice entity", func(a, b []string) bool { return (len(a) == 0 && len(b) == 0) || reflect.DeepEqual(a, b) })
 			roundTrip(run, r, kind, scratch, map[string]int(nil), map[string]int{"stale": 1}, "nil map entity", func(a, b map[string]int) bool { return (len(a) == 0 && len(b) == 0) || reflect.DeepEqual(a, b) })
 			roundTrip(run, r, kind, scratch, (*Named)(nil), &Named{V: -3}, "nil pointer entity", func(a, b *Named) bool { return (a == nil && b == nil) || (a != nil && b != nil && *a == *b) })
+			schemaless(run, r, kind, scratch)
+		}
+	}
+}
+
+// schemaless: a collection of interface-typed entities under an explicit entity type holds whatever
+// JSON the producers send - documents, text, numbers and null. Every value comes back from Get and
+// All as what a JSON decoder makes of it; null is a present entry whose value is nil.
+func schemaless(run *vk.Run, r *rand.Rand, kind, scratch string) {
+	st, err := stores.Open(kind, scratch)
+	if err != nil {
+		panic(err)
+	}
+	defer func() { st.Close(); st.Remove() }()
+	bus := ebu.New(ebu.WithStore(st.Store))
+	vals := []any{nil, 1.5, "text", "", map[string]any{"a": 1.0, "b": []any{"x", nil}}, []any{}, true, nil}
+	want := map[string]any{}
+	run.Case("schemaless (interface-typed) entities|"+kind, true)
+	defer func() {
+		if rec := recover(); rec != nil {
+			run.Violation("statemsg:constructor-or-apply-panicked", fmt.Sprintf("[schemaless collection via %s] a helper constructor, Apply, Get or All panicked for JSON-encodable interface-typed entities %v: %v", kind, want, rec), nil)
+		}
+	}()
+	for i := 0; i < 2+r.IntN(5); i++ {
+		key := fmt.Sprintf("doc-%d", r.IntN(4))
+		v := vals[r.IntN(len(vals))]
+		msg, err := state.Insert[any](key, v, state.WithEntityType("schemaless/doc"))
+		if err != nil {
+			run.Violation("statemsg:constructor-error", fmt.Sprintf("Insert[any](%q, %v) failed: %v", key, v, err), nil)
+			return
+		}
+		ebu.Publish(bus, *msg)
+		want["schemaless/doc/"+key] = v
+	}
+	mat := state.NewMaterializer(state.WithStrictSchema())
+	docs := state.NewTypedCollectionWithType[any](state.NewMemoryStore[any](), "schemaless/doc")
+	state.RegisterCollection(mat, docs)
+	if err := mat.Replay(context.Background(), bus, ebu.OffsetOldest); err != nil {
+		run.Violation("statemsg:apply-error", fmt.Sprintf("[schemaless collection via %s] Replay of %d inserts failed: %v", kind, len(want), err), nil)
+		return
+	}
+	all := docs.All()
+	if !reflect.DeepEqual(all, want) {
+		run.Violation("statemsg:materialized-entity", fmt.Sprintf("[schemaless collection via %s] All() = %v, the last written values are %v", kind, all, want), nil)
+	}
+	for ck, v := range want {
+		got, ok := docs.Get(strings.TrimPrefix(ck, "schemaless/doc/"))
+		if !ok || !reflect.DeepEqual(got, v) {
+			run.Violation("statemsg:materialized-entity", fmt.Sprintf("[schemaless collection via %s] Get(%q) = %v, %v; the last written value is %v", kind, ck, got, ok, v), nil)
 		}
 	}
 }
